@@ -174,13 +174,13 @@ theorem lastAck_shift {pos : Nat} (hp : pos < 256) :
         unfold wrapSub at h2 ⊢; omega
 
 /-- the accounting is tight: the youngest acknowledgement in flight covers everything `Y` had
-received when it was sent (`d = ack_level`); with no acknowledgement in flight, `X` counts at most
-one segment more than `Y` has received and not acknowledged (the handshake response, which the
-initiator acknowledges only together with the first data segment) -/
+received when it was sent (`d = ack_level`); with no acknowledgement in flight, `X` counts exactly
+what `Y` has received and not acknowledged (`hi = lo`; the handshake response is counted by the
+initiator as a received, unacknowledged segment - before that fix there was a slack of one) -/
 def Tight (pos hi lo : Nat) (aq : List (List Nat)) : Prop :=
   match lastAck pos aq with
   | some d => d = lo
-  | none => hi ≤ lo + 1
+  | none => hi = lo
 
 /-! ## What a well-behaved sender emits -/
 
@@ -304,6 +304,7 @@ theorem commit_ok {r : RecvWindow} {h : Hdr} {pfx p : List Nat} {rem now : Nat} 
 theorem acceptIncoming_eq_commit (r : RecvWindow) (h : Hdr) (p : List Nat) (mtu now : Nat)
     (g1 : r.checkDataIntegrity h p.length mtu = true) (g2 : r.level ≠ 0)
     (g3 : ¬ (h.getMsgLen.isSome = true ∧ r.remMsgLen > 0)) (g4 : fitsButNotFinal h mtu = false)
+    (g4b : orphanSegment r h = false)
     (g5 : p.length ≤ r.startRem h.getMsgLen)
     (g6 : ¬ (h.fin = false ∧ p ≠ [] ∧ r.startRem h.getMsgLen - p.length = 0))
     (g7 : ¬ (h.fin = true ∧ r.startRem h.getMsgLen - p.length > 0))
@@ -319,6 +320,8 @@ theorem acceptIncoming_eq_commit (r : RecvWindow) (h : Hdr) (p : List Nat) (mtu 
   · rename_i c; exact absurd (by simpa using c) g3
   split
   · rename_i c; rw [g4] at c; cases c
+  split
+  · rename_i c; rw [g4b] at c; cases c
   split
   · rename_i c; omega
   split
@@ -368,6 +371,18 @@ theorem accept_ok {mtu seq : Nat} {r : RecvWindow} {h : Hdr} {p : List Nat}
           have : p.length ≠ h.msgLen := by simpa using hf.symm
           simp; omega
         · simp
+  have g4b : orphanSegment r h = false := by
+    unfold orphanSegment
+    rcases hsh with ⟨hb, hc, hf, ha, _⟩ | ⟨hp, _, _, hle, _⟩
+    · have : h.isStandaloneAck = true := by
+        simp [Hdr.isStandaloneAck, Hdr.getMsgLen, Hdr.getAck, hok.canon.hs, hb, hc, hf, ha]
+      simp [this]
+    · cases hbeg : h.beg
+      · have hpl : 0 < p.length := List.length_pos_iff.mpr hp
+        simp only [hbeg, Bool.false_eq_true, if_false] at hle
+        have : (r.remMsgLen == 0) = false := by simp; omega
+        simp [this]
+      · simp [hgm, hbeg]
   have g5 : p.length ≤ r.startRem h.getMsgLen := by
     rw [hsr]
     rcases hsh with ⟨_, _, _, _, hp⟩ | ⟨_, _, _, hle, _⟩
@@ -392,7 +407,7 @@ theorem accept_ok {mtu seq : Nat} {r : RecvWindow} {h : Hdr} {p : List Nat}
   have g8 : (sduPrefix h.getMsgLen).length + p.length ≤ ringFree r.buf := by
     unfold ringFree; simp only [maxMessageSize_eq]; omega
   have hacc : r.acceptIncoming h p mtu now = .ok r' := by
-    rw [acceptIncoming_eq_commit r h p mtu now hint (by omega) g3 g4 g5 g6 g7 g8, hr']
+    rw [acceptIncoming_eq_commit r h p mtu now hint (by omega) g3 g4 g4b g5 g6 g7 g8, hr']
   refine ⟨r', hacc, ?_⟩
   obtain ⟨e1, e2, _, e4, e5, e6, e7⟩ := commit_inv hr'
   refine ⟨e4, e6, e5, by rw [e2, hsr], ?_, e7⟩
